@@ -341,8 +341,9 @@ func runC03(c *runCfg) error {
 		if err != nil {
 			return err
 		}
-		if !any {
-			return replaySessions(c)
+		_ = any
+		if err := replayC14(c); err != nil {
+			return err
 		}
 		return replaySessions(c)
 	}
@@ -400,6 +401,24 @@ func runC03(c *runCfg) error {
 			vc.chunks = ch
 			emitSession(c, &vc)
 		}
+	}
+	// (iii) surplus behind the last field of the message that starts a binary COPY: the row reader of the
+	// library must not see it (reference run without surplus first, then the variants of the same group)
+	for k := 0; k < 12; k++ {
+		shapes := [][]int{{23}, {25}, {23, 25}, {21, 23}}
+		oids := shapes[k%len(shapes)]
+		var rows [][]bval
+		for r := k % 3; r > 0; r-- {
+			var row []bval
+			for _, o := range oids {
+				row = append(row, g.bval(o))
+			}
+			rows = append(rows, row)
+		}
+		stream, expect := encodeRows(oids, rows, k%2 == 0, k%4 < 2)
+		gid := 700000 + k
+		emitC14(c, &c14case{id: fmt.Sprintf("%d.v0", gid), class: "surplus_ref", limit: 64, oids: oids, chunks: fitChunks([][]byte{stream}, 64), ending: "done", expect: expect})
+		emitC14Surplus(c, gid, 64, oids, stream, expect)
 	}
 	// (ii) the field accessors on arbitrary message bodies
 	return runRDn(c, 2500, 50000)
